@@ -442,6 +442,29 @@ def loop_elems(loop: ast.AST, fn: Optional[ast.AST] = None) -> Optional[LoopElem
     return None
 
 
+def _guard_clause_conds(node: ast.AST, loop: Optional[ast.AST]) -> List[ast.AST]:
+    """Conditions that hold at `node` because of guard clauses of the innermost loop body it sits in: a preceding sibling
+    `if T: continue` (no else, the body always continues) contributes `not T` (a double negation is removed)."""
+    out: List[ast.AST] = []
+    if loop is None:
+        return out
+    cur = node
+    while cur is not None and cur is not loop:
+        par = getattr(cur, "_parent", None)
+        for fld in ("body", "orelse"):
+            blk = getattr(par, fld, None) if par is not None else None
+            if isinstance(blk, list) and any(cur is x for x in blk):
+                for sib in blk[: [i for i, x in enumerate(blk) if x is cur][0]]:
+                    if isinstance(sib, ast.If) and not sib.orelse and sib.body and isinstance(sib.body[-1], ast.Continue):
+                        t = sib.test
+                        if isinstance(t, ast.UnaryOp) and isinstance(t.op, ast.Not):
+                            out.append(t.operand)
+                        else:
+                            out.append(ast.copy_location(ast.UnaryOp(op=ast.Not(), operand=t), t))
+        cur = par
+    return out
+
+
 @dataclass
 class ListBuild:
     name: str
@@ -477,6 +500,7 @@ def list_builds(fn: ast.AST, name: str) -> List[ListBuild]:
         elif isinstance(st, ast.Call) and isinstance(st.func, ast.Attribute) and st.func.attr == "append" and norm(st.func.value) == name and st.args:
             loops = list(reversed(enclosing_loops(st)))
             conds = [a.test for a in ancestors(st) if isinstance(a, ast.If) and (not loops or in_body_of(a, loops[0]) or a in loops)]
+            conds += _guard_clause_conds(st, loops[-1] if loops else None)
             out.append(ListBuild(name, st.args[0], loops, conds, st))
     return out
 
@@ -1255,3 +1279,44 @@ def record_fields(fn: ast.AST, e: Optional[ast.AST]) -> Optional[Dict[str, ast.A
                 out[const_value(st.targets[0].slice)] = st.value
         return out
     return lit(e) if e is not None else None
+
+
+def inline_attr_aliases(fn: ast.AST) -> ast.AST:
+    """A copy of the function in which a local bound ONCE to an attribute chain (`g = cfg.geometric`) is replaced, at its
+    later uses, by that chain - provided the chain's root names are not re-bound and the chain itself is not assigned after
+    the alias was taken (then `g.x = v` and `cfg.geometric.x = v` are the same store on the same object)."""
+    from .inline import clone
+    from .program import set_parents
+
+    new = clone(fn)
+    set_parents(new)
+    subst: Dict[str, Tuple[ast.AST, int]] = {}
+    params = {a.arg for a in ast.walk(new.args) if isinstance(a, ast.arg)} if hasattr(new, "args") else set()
+    for st in walk_function(new):
+        if isinstance(st, ast.Assign) and len(st.targets) == 1 and isinstance(st.targets[0], ast.Name) and isinstance(st.value, ast.Attribute) and not enclosing_loops(st):
+            nm = st.targets[0].id
+            chain = st.value
+            root = chain
+            while isinstance(root, ast.Attribute):
+                root = root.value
+            if not isinstance(root, ast.Name) or nm in params or len(assignments_to(new, nm)) != 1:
+                continue
+            text = norm(chain)
+            later_store = any(isinstance(x, (ast.Assign, ast.AugAssign, ast.AnnAssign)) and getattr(x, "lineno", 0) > st.lineno
+                              and any(norm(t) == text or norm(t) == root.id for t in stmt_targets(x)) for x in walk_function(new))
+            if later_store or len(assignments_to(new, root.id)) > (0 if root.id in params or root.id == "self" else 1):
+                continue
+            subst[nm] = (chain, st.lineno)
+    if not subst:
+        return new
+
+    class T(ast.NodeTransformer):
+        def visit_Name(self, node: ast.Name):
+            if node.id in subst and isinstance(node.ctx, ast.Load) and getattr(node, "lineno", 0) > subst[node.id][1]:
+                return ast.copy_location(clone(subst[node.id][0]), node)
+            return node
+
+    new = T().visit(new)
+    ast.fix_missing_locations(new)
+    set_parents(new)
+    return new
